@@ -44,6 +44,7 @@ func (c12) Rule() string {
 
 func (c12) Generate(r *rand.Rand, tier string) (sim.Config, any) {
 	cfg := RandomSimConfig(r)
+	cfg.StmtYield = pick(r, []float64{0, 0, 0.02, 0.1}) // statement-level preemption in the handler / cluster packages
 	cfg.TimeJumpProb = pick(r, []float64{0, 0.02, 0.05, 0.15})
 	cfg.IdleLimitSec = 3600
 	p := c12Params{TimeoutSec: 1 + r.IntN(3), Backups: r.IntN(2) == 0, CacheSize: pick(r, []int64{-1, 0, 5000}), NShards: 1 + r.IntN(2)}
